@@ -92,6 +92,25 @@ package main
 //@   ensures#canon abs == canon(name)                                                                               [C15]
 //@   modifies nothing
 
+// ---- C17: plugins are constructed only where an explicit command-line or key-file
+// string is parsed; nothing else in the module may construct or start one
+//@ callers filippo.io/age/plugin.NewIdentityWithoutData only filippo.io/age/cmd/age.decryptNotPass, filippo.io/age/cmd/age.encryptNotPass   [C17]
+//@ callers filippo.io/age/plugin.NewIdentity only filippo.io/age/cmd/age.parseIdentity                                                      [C17]
+//@ callers filippo.io/age/plugin.NewRecipient only filippo.io/age/cmd/age.parseRecipient                                                    [C17]
+//@ callers filippo.io/age/plugin.openClientConnection only (*filippo.io/age/plugin.Identity).Unwrap, (*filippo.io/age/plugin.Recipient).WrapWithLabels   [C17]
+//@ callers filippo.io/age/cmd/age.parseIdentity only filippo.io/age/cmd/age.parseIdentities                                                  [C17]
+
+// ---- C17: a -j / -i value reaches the identity parsers byte for byte
+//@ func (*identityFlags).addPluginFlag(f, value) (err)
+//@   requires f != nil
+//@   ensures#len err == nil && len(*f) == len(old(*f)) + 1   [C17]
+//@   ensures#verbatim (*f)[len(*f) - 1].Type == "j" && (*f)[len(*f) - 1].Value == value   [C17]
+
+//@ func (*identityFlags).addIdentityFlag(f, value) (err)
+//@   requires f != nil
+//@   ensures#len err == nil && len(*f) == len(old(*f)) + 1   [C15 C17 C18]
+//@   ensures#verbatim (*f)[len(*f) - 1].Type == "i" && (*f)[len(*f) - 1].Value == value   [C15 C17 C18]
+
 //@ func main()
 //@   nosafety
 //@   pathcap 20000
@@ -146,6 +165,7 @@ package main
 //@   loop 1 invariant#idx -1 <= rangeindex && rangeindex < len(flags)
 //@   loop 1 invariant#nonnil forall j in 0..len(identities) :: identities[j] != nil                                 [C14 C15]
 //@   call decrypt#1 requires same(arg1, in) && same(arg2, out)                                                      [C15]
+//@   call NewIdentityWithoutData#1 requires arg0 == f.Value && f.Type == "j"                                        [C17]
 //@   ensures#ran calls("decrypt",1) == old(calls("decrypt",1)) + 1                                                  [C15]
 
 //@ func randomWord() (w)
@@ -170,6 +190,7 @@ package main
 //@   loop 2 invariant#nonnil forall j in 0..len(recipients) :: recipients[j] != nil                                 [C14 C15]
 //@   loop 3 invariant#nonnil forall j in 0..len(recipients) :: recipients[j] != nil                                 [C14 C15]
 //@   call encrypt#1 requires same(arg1, in) && same(arg2, out) && arg3 == armor                                     [C15]
+//@   call NewIdentityWithoutData#1 requires arg0 == f.Value && f.Type == "j"                                        [C17]
 //@   ensures#ran calls("encrypt",1) == old(calls("encrypt",1)) + 1                                                  [C15]
 
 //@ func bufferTerminalInput(in) (r, err)
